@@ -3,34 +3,54 @@
 A generated event stream (ids, event names, multi-line data, retry fields,
 comments, unknown fields, lines without a colon; every line ends with CRLF, LF or
 CR chosen per line; the stream ends with a blank line) is delivered in a generated
-fragmentation through three transports:
+fragmentation through these transports:
    es       httping.EventSource fed directly
    close    clienting.Respondent, close-delimited text/event-stream response
    chunked  clienting.Respondent, chunked response whose chunking is unrelated to
             the line structure
+   length   clienting.Respondent, plain (not chunked) text/event-stream response that
+            declares its Content-Length
+   reconnect  the real http Client(reconnectable) on an in-memory connector
+            (vlib/fakenet.FakeConnector, connect completes on a later attempt as a
+            non-blocking connect does): a first stream, the server closes, the client
+            stays cut off for `gap` service cycles before its retry timer expires,
+            reconnects, asks again, and a second stream is delivered in its own
+            fragmentation (both plain or both chunked).  The events of the first
+            stream followed by those of the second must be yielded.
 Oracle: a reference interpreter (below, ~40 lines) tokenises the *complete* byte
 stream with the documented ABNF (end-of-line = CRLF / CR / LF, greedy) and applies
-the documented field rules in hio's own representation; the event list, the last
-event id and the retry value must be equal.
+the documented field rules in hio's own representation (a block with at least one
+data line dispatches an event, also when its data is the empty string; a block
+without a data line dispatches nothing); the event list, the last event id and the
+retry value must be equal.
 """
 from hypothesis import strategies as st
 
+from hio.base import tyming
 from hio.core.http import clienting, httping
-from vlib import httpgen
+from vlib import fakenet, httpgen
 from vlib.core import Result, assert_in_tree
 
 assert_in_tree(clienting, httping)
 
 PID = "C15"
-RULE = ("cases: event streams of 1-6 events built from field lines (data x 0-3, event, id, retry, comments, unknown fields, "
-        "colon-less lines, values with leading blanks / colons / unicode), terminator per line from CRLF/LF/CR, delivered in a "
-        "generated fragmentation, with 0-2 parse passes that bring no new bytes after each read, via EventSource, "
-        "close-delimited Respondent and chunked Respondent. non-trivial = >= 2 "
-        "terminator kinds, a multi-line data field, and a cut between a CR and the following byte; distinct = canonical hash")
+RULE = ("cases: event streams of 1-6 events built from field lines (data x 0-3 incl. empty data lines, event, id, retry, comments, "
+        "unknown fields, colon-less lines, values with leading blanks / colons / unicode), terminator per line from CRLF/LF/CR, "
+        "delivered in a generated fragmentation, with 0-2 parse passes that bring no new bytes after each read, via EventSource, "
+        "close-delimited Respondent, chunked Respondent and Content-Length Respondent; plus two such streams delivered to the real "
+        "Client(reconnectable) before / after a server close with 0-5 cut-off service cycles before the retry timer expires, plain "
+        "or chunked. non-trivial = >= 2 terminator kinds, a multi-line data field, and a cut between a CR and the following byte; "
+        "for reconnect cases: the second stream was asked for and arrived in >= 2 reads; distinct = canonical hash")
 ASSUMPTIONS = ["for a stream that ends inside a block, the last event id may be the one of the unfinished block (tracked at the id line) "
                "or still the one of the last dispatched block (tracked at dispatch): both are accepted",
                "retry values are either ASCII digit strings or clearly non-numeric (signs / underscores are not generated: "
-               "the statement does not define them)", "no byte order mark (hio's parseEvents does not document one)"]
+               "the statement does not define them)", "no byte order mark (hio's parseEvents does not document one)",
+               "a text/event-stream response with a Content-Length is a stream 'delivered plain'; only the events available after "
+               "the whole body arrived are compared (when they are yielded is not judged)",
+               "reconnect cases: connecting takes at least one more service cycle than the attempt (a non-blocking connect reports "
+               "EINPROGRESS first; an instant connect is not generated); the second stream is only sent after the client asked again "
+               "(a client that does not ask again is not judged); events of the second stream that precede its first id line may "
+               "carry the last id of the first stream or none; the Last-Event-ID request header is not judged"]
 
 EOL = {"crlf": b"\r\n", "lf": b"\n", "cr": b"\r"}
 
@@ -40,8 +60,10 @@ def build_stream(lines):
     return b"".join(t.encode("utf-8") + EOL[e] for t, e in lines)
 
 
-def reference(stream):
-    """Documented interpretation of a complete SSE byte stream."""
+def reference(stream, leid0=None, legacy=False):
+    """Documented interpretation of a complete SSE byte stream -> (events, last event id, retry, last event id as of the
+    last completed block).  leid0 = last event id known before the stream.  legacy=True: a block whose data is the empty
+    string is not dispatched (only used to name a failure, never to accept one)."""
     # tokenise: CRLF | CR | LF, greedy
     lines = []
     cur = bytearray()
@@ -61,19 +83,20 @@ def reference(stream):
             cur.append(c)
         i += 1
     events = []
-    leid = None
+    leid = leid0
+    at_dispatch = leid0
     retry = None
     ename = ""
     parts = []
-    reference.leid_at_dispatch = None
     for ln in lines:
         if not ln:
-            data = "\n".join(parts) if parts else ""
-            if data:
-                events.append({"id": leid, "name": ename, "data": data})
+            # a data line appends value + LF to the data buffer, the last LF is removed at dispatch: one empty data line is an
+            # event with data "" ; no data line at all is no event
+            if parts and (not legacy or "\n".join(parts)):
+                events.append({"id": leid, "name": ename, "data": "\n".join(parts)})
             ename = ""
             parts = []
-            reference.leid_at_dispatch = leid       # the id as of the last completed block
+            at_dispatch = leid       # the id as of the last completed block
             continue
         field, sep, value = ln.partition(b":")
         if sep and not field:
@@ -91,7 +114,28 @@ def reference(stream):
         elif field == "retry":
             if value.isascii() and value.isdigit():
                 retry = int(value)
-    return events, leid, retry
+    return events, leid, retry, at_dispatch
+
+
+def outcomes(stream, legacy=False):
+    """Acceptable (events, last event id, retry) for one stream.  The stream may end inside a block (a CR and the LF of the
+    following blank line merge into one CRLF).  When the last event id is "tracked" for such an unfinished block is open: at
+    the id line (what hio does) or when the block is dispatched (what the HTML standard does).  Both are accepted; they
+    coincide whenever the stream ends with a blank line."""
+    ev, leid, retry, atd = reference(stream, None, legacy)
+    return [(ev, leid, retry), (ev, atd, retry)]
+
+
+def resumed_outcomes(s1, s2, legacy=False):
+    """Acceptable outcomes for stream s1, a reconnect, then stream s2."""
+    acc = []
+    ev1, l1, rt1, a1 = reference(s1, None, legacy)
+    for last1 in (l1, a1):
+        for start in (None, last1):       # events before the first id line of s2: no id, or the id carried over
+            ev2, l2, rt2, a2 = reference(s2, start, legacy)
+            for lz in (l2, a2):
+                acc.append((ev1 + ev2, lz if lz is not None else last1, rt2 if rt2 is not None else rt1))
+    return acc
 
 
 def run_es(stream, frags, idle=(0,)):
@@ -104,24 +148,29 @@ def run_es(stream, frags, idle=(0,)):
     return [dict(e) for e in es.events], es.leid, es.retry
 
 
-def run_resp(stream, case, frags_of, idle=(0,)):
-    if case["transport"] == "close":
-        head = b"HTTP/1.1 200 OK\r\nContent-Type: text/event-stream\r\n\r\n"
-        data = head + stream
-    else:
-        head = b"HTTP/1.1 200 OK\r\nContent-Type: text/event-stream\r\nTransfer-Encoding: chunked\r\n\r\n"
-        body = bytearray()
-        pos = 0
-        sizes = [s for s in case.get("chunks", []) if s > 0] or [len(stream) or 1]
-        k = 0
-        while pos < len(stream):
-            s = sizes[k % len(sizes)]
-            k += 1
-            part = stream[pos:pos + s]
-            pos += s
-            body += format(len(part), "x").encode() + b"\r\n" + part + b"\r\n"
-        body += b"0\r\n\r\n"
-        data = head + bytes(body)
+def wire(stream, tr, chunks=None):
+    """The response bytes that carry the stream over transport tr."""
+    if tr == "close":
+        return b"HTTP/1.1 200 OK\r\nContent-Type: text/event-stream\r\n\r\n" + stream
+    if tr == "length":
+        return b"HTTP/1.1 200 OK\r\nContent-Type: text/event-stream\r\nContent-Length: %d\r\n\r\n" % len(stream) + stream
+    head = b"HTTP/1.1 200 OK\r\nContent-Type: text/event-stream\r\nTransfer-Encoding: chunked\r\n\r\n"
+    body = bytearray()
+    pos = 0
+    sizes = [s for s in (chunks or []) if s > 0] or [len(stream) or 1]
+    k = 0
+    while pos < len(stream):
+        s = sizes[k % len(sizes)]
+        k += 1
+        part = stream[pos:pos + s]
+        pos += s
+        body += format(len(part), "x").encode() + b"\r\n" + part + b"\r\n"
+    body += b"0\r\n\r\n"
+    return head + bytes(body)
+
+
+def run_resp(stream, tr, chunks, frags_of, idle=(0,)):
+    data = wire(stream, tr, chunks)
     msg = bytearray()
     rsp = clienting.Respondent(msg=msg, method="GET")
     for i, f in enumerate(frags_of(data)):
@@ -129,35 +178,150 @@ def run_resp(stream, case, frags_of, idle=(0,)):
         rsp.parse()
         for _ in range(idle[i % len(idle)]):
             rsp.parse()
-    if case["transport"] == "close":
+    if tr == "close":
         rsp.close()
         rsp.parse()
     retry = rsp.retry if rsp.retry != clienting.Respondent.Retry else None
-    return [dict(e) for e in rsp.events], rsp.leid, retry, rsp
+    return [dict(e) for e in rsp.events], rsp.leid, retry
+
+
+# ------------------------------------------------------------------ a stream resumed after a reconnect
+
+AUTH = ("127.0.0.1", 8080)
+
+
+class _Connector(fakenet.FakeConnector):
+    """In-memory connector whose connect succeeds on the (delay+1)-th attempt after each (re)open, the way a non-blocking
+    connect first reports EINPROGRESS."""
+
+    def __init__(self, delay=1, **kwa):
+        self.delay = self._wait = max(1, int(delay))
+        super().__init__(**kwa)
+
+    def open(self):
+        self._wait = self.delay
+        return super().open()
+
+    def accept(self):
+        if (self.cs is None or getattr(self.cs, "closed", False)) and self._wait > 0:
+            self._wait -= 1
+            return False
+        return super().accept()
+
+
+def run_reconnect(case):
+    """-> ((events, leid, retry), status, reads of the second stream)"""
+    s1 = build_stream(case["lines"])
+    s2 = build_stream(case["lines2"])
+    framing = case.get("framing", "close")
+    idle = tuple(case.get("idle") or (0,))
+    delay = case.get("delay", 1)
+    tymist = tyming.Tymist(tyme=0.0, tock=2.0 ** -14)      # service cycles are 61 us apart: the 1 s timer below never
+    socks = []                                             # runs out while a stream is being delivered
+
+    def make():
+        a, b = fakenet.pipe(a_addr=("127.0.0.1", 43000 + len(socks)), b_addr=AUTH)
+        socks.append(b)
+        return a
+
+    fakenet.FakeConnector.registry = {AUTH: make}
+    fakenet.FakeConnector.opened_to = []
+    conn = _Connector(delay=delay, ha=AUTH, tymth=tymist.tymen(), tymeout=1.0, reconnectable=True, bs=65536)
+    conn.reopen()
+    client = clienting.Client(connector=conn, hostname=AUTH[0], port=AUTH[1])
+    client.request(method="GET", path="/stream", headers={"Accept": "text/event-stream"})
+
+    def cycle(n=1):
+        for _ in range(n):
+            client.service()
+            tymist.tick()
+
+    def asked(k):
+        """Service until the k-th connection exists and a complete request head arrived on it."""
+        seen = bytearray()
+        for _ in range(12 + delay):
+            cycle()
+            if len(socks) > k:
+                try:
+                    seen.extend(socks[k].recv(65536))
+                except OSError:
+                    pass
+                if b"\r\n\r\n" in seen:
+                    return True
+        return False
+
+    status = "resumed"
+    reads2 = 0
+    for k, (stream, cuts) in enumerate(((s1, case["cuts"]), (s2, case.get("cuts2") or case["cuts"]))):
+        if not asked(k):
+            status = "no-request-%d" % k
+            break
+        b = socks[k]
+        frags = httpgen.fragments(wire(stream, framing, case.get("chunks")), cuts)
+        for i, f in enumerate(frags):
+            b.send(f)
+            cycle(1 + idle[i % len(idle)])
+        if k == 0:
+            b.close()                         # the server ends the connection
+            cycle(case.get("gap", 0))         # cut off, retry timer still running
+            tymist.tick(tock=1.0)             # now it has run out
+        else:
+            reads2 = len(frags)
+    cycle(3)
+    rsp = client.respondent
+    retry = rsp.retry if rsp.retry != clienting.Respondent.Retry else None
+    return ([dict(e) for e in client.events], rsp.leid, retry), status, reads2
+
+
+def run_case_reconnect(case, r):
+    s1 = build_stream(case["lines"])
+    s2 = build_stream(case["lines2"])
+    framing = case.get("framing", "close")
+    got, status, reads2 = run_reconnect(case)
+    r.labels.append("transport:reconnect-" + framing)
+    r.labels.append("reconnect:" + status)
+    r.labels.append("cutoff-cycles=%d" % min(case.get("gap", 0), 5))
+    if status == "no-request-0":
+        return r            # the client never asked: nothing to deliver, nothing judged here
+    if status == "resumed":
+        acc, leg = resumed_outcomes(s1, s2), resumed_outcomes(s1, s2, legacy=True)
+    else:                   # the client did not ask again (no event id so far): only the first stream was sent
+        acc, leg = outcomes(s1), outcomes(s1, legacy=True)
+    if got not in acc:
+        what = _first_diff(got, acc[0])
+        one = lambda d: [d]
+        alone = all(run_resp(s, framing, case.get("chunks"), one) in outcomes(s) + outcomes(s, legacy=True) for s in (s1, s2))
+        if got in leg and any(_drops_empty(s) for s in (s1, s2)):
+            sig = "C15/empty-data-event-dropped"
+        elif alone:
+            sig = "C15/resumed-stream-not-delivered"
+        else:
+            sig = "C15/wrong-events"
+        r.fail(sig, "transport reconnect (%s), %d cut-off cycles: %s" % (framing, case.get("gap", 0), what))
+    r.nontrivial = status == "resumed" and reads2 >= 2
+    r.labels.append("events=%d" % min(len(acc[0][0]), 4))
+    if any(e["data"] == "" for e in acc[0][0]):
+        r.labels.append("empty-data-event")
+    return r
 
 
 def run_case(case):
     r = Result()
-    stream = build_stream(case["lines"])
-    exp = reference(stream)
-    # The stream may end inside a block (a CR and the LF of the following blank line merge into one CRLF).  When the last
-    # event id is "tracked" for such an unfinished block is open: at the id line (what hio does) or when the block is
-    # dispatched (what the HTML standard does).  Both are accepted; they coincide whenever the stream ends with a blank line.
-    alt = (exp[0], reference.leid_at_dispatch, exp[2])
     tr = case["transport"]
+    if tr == "reconnect":
+        return run_case_reconnect(case, r)
+    stream = build_stream(case["lines"])
+    acc = outcomes(stream)
+    leg = outcomes(stream, legacy=True)
     frag = lambda data: httpgen.fragments(data, case["cuts"])
     idle = tuple(case.get("idle") or (0,))
+    frags = frag(stream)
     if tr == "es":
-        frags = frag(stream)
         got = run_es(stream, frags, idle)
         whole = run_es(stream, [stream])
     else:
-        e, l, rt, _rsp = run_resp(stream, case, frag, idle)
-        got = (e, l, rt)
-        e2, l2, rt2, _ = run_resp(stream, case, lambda d: [d])
-        whole = (e2, l2, rt2)
-        frags = frag(stream)
-    # retry default for Respondent is mapped to None above; for a fair compare do the same on the reference
+        got = run_resp(stream, tr, case.get("chunks"), frag, idle)
+        whole = run_resp(stream, tr, case.get("chunks"), lambda d: [d])
     kinds = {e for _t, e in case["lines"]}
     cr_cut = False
     pos = 0
@@ -165,19 +329,22 @@ def run_case(case):
         pos += len(f)
         if stream[pos - 1:pos] == b"\r":
             cr_cut = True
-    if got == alt and whole in (exp, alt):
-        exp = alt
-    if whole == alt:
-        whole = exp
-    if got != exp:
-        what = _first_diff(got, exp)
-        if whole == exp and cr_cut:
-            sig = "C15/cr-at-end-of-read"
-        elif whole == exp:
-            sig = "C15/fragmentation-dependent"
+    suffix = "(content-length)" if tr == "length" else ""
+    if got not in acc:
+        what = _first_diff(got, acc[0])
+        if got in leg and _drops_empty(stream):
+            sig = "C15/empty-data-event-dropped"
+        elif whole in acc and cr_cut:
+            sig = "C15/cr-at-end-of-read" + suffix
+        elif whole in acc:
+            sig = "C15/fragmentation-dependent" + suffix
         else:
-            sig = "C15/wrong-events"
+            sig = "C15/wrong-events" + suffix
         r.fail(sig, "transport %s: %s" % (tr, what))
+    elif whole not in acc:          # the same stream in one read is a delivery as well
+        what = _first_diff(whole, acc[0])
+        r.fail("C15/empty-data-event-dropped" if whole in leg and _drops_empty(stream) else "C15/wrong-events" + suffix,
+               "transport %s, delivered in one read: %s" % (tr, what))
     multi = False
     run = 0
     for t, _e in case["lines"]:
@@ -195,8 +362,17 @@ def run_case(case):
         r.labels.append("idle-passes-between-reads")
     if multi:
         r.labels.append("multi-line-data")
-    r.labels.append("events=%d" % min(len(exp[0]), 4))
+    if any(e["data"] == "" for e in acc[0][0]):
+        r.labels.append("empty-data-event")
+    r.labels.append("events=%d" % min(len(acc[0][0]), 4))
     return r
+
+
+def _drops_empty(stream):
+    """Names a failure, never accepts one: does the event parser itself, fed the whole stream at once, leave out exactly the
+    events whose data is the empty string?"""
+    one = run_es(stream, [stream])
+    return one not in outcomes(stream) and one in outcomes(stream, legacy=True)
 
 
 def _first_diff(got, exp):
@@ -218,27 +394,32 @@ VAL2 = st.one_of(VAL, st.sampled_from(["", " x", "  two", "a:b", ":", "é✓", "
 
 
 @st.composite
-def stream_lines(draw, eols=("crlf", "lf", "cr")):
+def stream_lines(draw, eols=("crlf", "lf", "cr"), maxev=6, first_id=False, idval=VAL2):
     eol = st.sampled_from(list(eols))
     lines = []
-    nev = draw(st.integers(1, 6))
+    nev = draw(st.integers(1, maxev))
+    if first_id:        # an event id right away, so that a reconnecting client has something to resume from
+        lines.append(["id:" + draw(st.sampled_from([" ", ""])) + draw(idval), draw(eol)])
     for _ in range(nev):
         nfields = draw(st.integers(0, 5))
         for _f in range(nfields):
-            kind = draw(st.sampled_from(["data", "data", "data", "event", "id", "retry", "comment", "unknown", "nocolon"]))
+            kind = draw(st.sampled_from(["data", "data", "data", "event", "id", "retry", "comment", "unknown", "nocolon",
+                                         "emptydata"]))
             sp = draw(st.sampled_from([" ", " ", ""]))
             if kind == "data":
                 t = "data:" + sp + draw(VAL2)
             elif kind == "event":
                 t = "event:" + sp + draw(VAL2)
             elif kind == "id":
-                t = "id:" + sp + draw(VAL2)
+                t = "id:" + sp + draw(idval)
             elif kind == "retry":
                 t = "retry:" + sp + draw(st.sampled_from(["0", "5", "3000", "007", "abc", "", "12a"]))
             elif kind == "comment":
                 t = ":" + draw(VAL)
             elif kind == "unknown":
                 t = draw(st.sampled_from(["foo", "Data", "datum", "x-y"])) + ":" + sp + draw(VAL)
+            elif kind == "emptydata":
+                t = draw(st.sampled_from(["data:", "data", "data: "]))
             else:
                 t = draw(st.sampled_from(["data", "event", "id", "retry", "bogus"]))
             lines.append([t, draw(eol)])
@@ -246,14 +427,29 @@ def stream_lines(draw, eols=("crlf", "lf", "cr")):
     return lines
 
 
+# ids a client can put into a request header: hio encodes header values as ISO-8859-1 and raises on anything else when it
+# asks again after a reconnect; that request is not part of this property, so such ids are kept out of a stream that is resumed
+ID_LATIN1 = st.one_of(st.text(alphabet=st.characters(min_codepoint=0x20, max_codepoint=0xFF, blacklist_characters="\x7f"), max_size=12),
+                      st.sampled_from(["", " x", "a:b", ":", "é", "0", "x "]))
+IDLE = st.one_of(st.just([0]), st.lists(st.integers(0, 2), min_size=1, max_size=4))
+
+
 def _case(eols=("crlf", "lf", "cr")):
     return st.fixed_dictionaries({
-        "lines": stream_lines(eols), "transport": st.sampled_from(["es", "close", "chunked"]),
-        "chunks": st.lists(st.integers(1, 23), max_size=5), "cuts": httpgen.cuts(),
-        "idle": st.one_of(st.just([0]), st.lists(st.integers(0, 2), min_size=1, max_size=4))})
+        "lines": stream_lines(eols), "transport": st.sampled_from(["es", "close", "chunked", "length"]),
+        "chunks": st.lists(st.integers(1, 23), max_size=5), "cuts": httpgen.cuts(), "idle": IDLE})
+
+
+def _reconnect_case():
+    return st.fixed_dictionaries({
+        "transport": st.just("reconnect"), "framing": st.sampled_from(["close", "chunked"]),
+        "lines": stream_lines(maxev=3, first_id=True, idval=ID_LATIN1), "lines2": stream_lines(maxev=4),
+        "chunks": st.lists(st.integers(1, 23), max_size=5), "cuts": httpgen.cuts(), "cuts2": httpgen.cuts(),
+        "gap": st.integers(0, 5), "delay": st.integers(1, 3), "idle": IDLE})
 
 
 def searches(tier):
     q = tier == "quick"
     return [("mixed-terminators", _case(), 1500 if q else 20000),
-            ("lf-crlf-only", _case(("crlf", "lf")), 600 if q else 8000)]
+            ("lf-crlf-only", _case(("crlf", "lf")), 600 if q else 8000),
+            ("resumed-after-reconnect", _reconnect_case(), 400 if q else 6000)]
